@@ -37,6 +37,9 @@ CHECKS = {
  "C16": ("exploration", "bounded-exhaustive enumeration of input elements (struct/enum/union bodies, generics, visibility, attribute forms) x every magic-field subset receiver; expectations from syn's parse of the same source",
          "odometer", "96 compiled receivers (all magic-field subsets of four traits + wrapped flavors) x all struct bodies of 0..3/4 fields over 6 field forms, enums of 0..2/3 variants over 8 forms, unions, 6 generics forms, 5 heads: token equality of every magic member, body kind/style/count/order, exact failure reporting, re-print identity",
          "syn's parse of the source is the reference for 'the corresponding part of the input'", "DESIGN.md §4 C16"),
+ "C18": ("model_checking", "exhaustive enumeration of supports(..) subsets as compiled receivers x input bodies against a shape-table model; full ShapeSet API table; API vs derived differential",
+         "odometer", "every (declared shape-word set, body) pair of the table model is replayed on a compiled receiver: accept/reject and the exact error count (one per non-conforming variant); unions error without crashing; 16 ShapeSets x 4 shapes x 4 carriers; derived verdict == API verdict",
+         "quick: word sets of size <= 2 and their complements (134 of 2048), enums of <= 3 variants; thorough: all 2048 sets, enums of <= 4 variants", "DESIGN.md §4 C18"),
 }
 PENDING = {}
 props = [json.loads(l) for l in open(os.path.join(V, "properties.jsonl"))]
